@@ -172,7 +172,7 @@ def run(chk) -> None:
         if it in ("cloneLetUnused", "cloneLetMentioned"):
             return ((in_loop and o["detectLoop"]) or o["detectUnnecessary"]) and not ex
         flag = {"blockFs": "detectFs", "blockFsUse": "detectFs", "blockSleep": "detectSleep", "blockNet": "detectNet"}[it]
-        return s["fn"] == "async" and not (set(inner) & wraps) and o[flag] and not ex
+        return (s["fn"] == "async" or "asyncfn" in inner) and not (set(inner) & wraps) and o[flag] and not ex
 
     own = {"unwrap": "unwrap-abuse", "expect": "unwrap-abuse", "unwrapChain2": "unwrap-abuse",
            "unwrapChainLines": "unwrap-abuse", "expectThenUnwrap": "unwrap-abuse", "clonePlain": "clone-abuse", "cloneChain": "clone-abuse",
